@@ -59,53 +59,43 @@ def superadditive(tab, d):
 
 
 def check_fixed(res, stats, counts, epochs, got, model, model_q=None):
+    """Since fix 412a87a the helper compares Y[i]*epochs with k*Y[n]: exact for integer-valued masses, so every
+    deviation from the exact-rational statement on such inputs is a violation; for non-integer masses only a
+    deviation at a near tie (rounding of the cumulative sums / products) is tolerated and counted."""
     replay = dict(kind="fixed", counts=[f2h(x) for x in counts], epochs=int(epochs))
-    tot = float(np.sum(np.asarray(counts, dtype=float)))
-    if tot <= 0 or any(float(c) < 0 for c in counts):
+    n = len(counts)
+    if any(float(c) < 0 for c in counts):
         stats["fixed_pre_false"] += 1
-        if model is not None:
-            res.corr_failures.append(Violation("fixed-model-accepts-zero-total", "fixedPre true on zero total mass", replay, "B"))
-        if got[0] != 0 or got[-1] != len(counts) or any(a > b for a, b in zip(got[:-1], got[1:])):
-            res.violations.append(Violation(
-                "fixed-zero-total-negative-boundaries",
-                f"_fixed_changepoints({list(counts)}, {epochs}) = {got}: total mass 0 gives 0/0 and boundaries outside 0..n", replay))
         return
     stats["fixed_pre_true"] += 1
     if model != got:
         res.corr_failures.append(Violation(
             "fixed-model-differs", f"_fixed_changepoints({list(counts)}, {epochs}) = {got}, Lean model at Float = {model}",
             dict(replay, impl=got, model=model), "B"))
+    shape_ok = len(got) == epochs + 1 and got[0] == 0 and got[-1] == n and all(a <= b for a, b in zip(got[:-1], got[1:]))
+    if not shape_ok:
+        res.violations.append(Violation(
+            "fixed-boundaries-not-monotone-0-to-n", f"_fixed_changepoints({list(counts)}, {epochs}) = {got}: not non-decreasing from 0 to {n}", replay))
+        return
+    tot = float(np.sum(np.asarray(counts, dtype=float)))
+    if tot <= 0:
+        stats["fixed_zero_total"] += 1          # mass fractions undefined: only the shape is claimed
+        return
     want, ties = cc.spec_fixed(counts, epochs)
-    near = cc.near_tie(counts, epochs)
     if model_q is not None and model_q != want:
         res.corr_failures.append(Violation(
             "fixed-exact-model-differs-from-spec", f"exact model {model_q} vs statement {want} on {list(counts)}, {epochs}", replay, "B"))
     if got != want:
-        # finding F13 precisely: an exact tie Y[i]/Y[n] == k/epochs (in exact rationals) that rounding breaks - the float
-        # fraction of the tied index ends up above the float grid value k*(1/epochs) - so that the tied indices are
-        # excluded and the boundary is the last index with Y[i]/Y[n] < k/epochs.  A tie that the floats represent exactly
-        # must be honoured: anything else is `fixed-boundary-wrong`.
-        explained = len(got) == len(want)
-        Yf = np.append(0.0, np.cumsum(np.asarray(counts, dtype=float)))
-        Zf = Yf / Yf[-1]
-        for k in range(1, epochs):
-            if not explained:
-                break
-            if got[k] != want[k]:
-                broken = bool(Zf[want[k]] > float(k) * (1.0 / epochs))
-                explained = bool(ties[k - 1]) and broken and got[k] == cc.spec_fixed_strict(counts, epochs, k)
-        explained = explained and got[0] == want[0] and got[-1] == want[-1]
-        if explained:
-            stats["fixed_exact_tie_deviation"] += 1
-            res.violations.append(Violation(
-                "fixed-boundary-below-spec-on-exact-tie",
-                f"_fixed_changepoints({list(counts)}, {epochs}) = {got}, statement gives {want}: the grid value k*(1/epochs) "
-                f"rounds below the exact fraction", replay))
-        elif near and not any(ties):
-            stats["fixed_near_tie_rounding"] += 1        # rounding of the cumulative sums themselves: within float tolerance
+        integral = all(float(c).is_integer() for c in counts) and tot * epochs < 2.0 ** 52
+        if integral:
+            kind = "fixed-boundary-wrong-on-exact-tie" if any(ties) else "fixed-boundary-wrong"
+            res.violations.append(Violation(kind, f"_fixed_changepoints({list(counts)}, {epochs}) = {got}, statement gives {want}", replay))
+        elif cc.near_tie(counts, epochs):
+            stats["fixed_near_tie_rounding"] += 1
         else:
             res.violations.append(Violation(
                 "fixed-boundary-wrong", f"_fixed_changepoints({list(counts)}, {epochs}) = {got}, statement gives {want}", replay))
+    stats["fixed_exact_ties_honoured"] += int(any(ties) and got == want)
     if len(set(got)) > 2:
         res.nontrivial.add(common.canon_key(replay))
 
@@ -195,7 +185,7 @@ def random_cases(ctx):
 def run(ctx):
     res = Result()
     import tsdate  # noqa: F401
-    stats = dict(fixed_pre_true=0, fixed_pre_false=0, fixed_exact_tie_deviation=0, fixed_near_tie_rounding=0,
+    stats = dict(fixed_pre_true=0, fixed_pre_false=0, fixed_zero_total=0, fixed_exact_ties_honoured=0, fixed_near_tie_rounding=0,
                  pelt_cases=0, pelt_no_feasible=0, hyp_superadditive=0, pelt_kinds={}, enum_domains=[], random_fixed=0,
                  random_pelt=0)
     specs = enum_specs(ctx)
@@ -255,6 +245,7 @@ def run(ctx):
     res.sample(dict(kind="pelt", counts=[5, 5, 4, 2], offsets=[4, 1, 3, 2], penalty=0, min_counts=3, min_offset=4,
                     code=cc.real_pelt([5, 5, 4, 2], [4, 1, 3, 2], 0, 3, 4), optimum=[0, 2, 4]))
     res.sample(dict(kind="fixed", counts=[1] * 6, epochs=6, code=cc.real_fixed([1.0] * 6, 6), statement=[0, 1, 2, 3, 4, 5, 6]))
+    res.sample(dict(kind="fixed", counts=[0, 0, 0], epochs=2, code=cc.real_fixed([0.0] * 3, 2), statement="any non-decreasing 0..n"))
     res.rule = ("B+C exhaustive: every counts vector over the stated alphabet and every offsets vector over the stated alphabet, "
                 "for every listed length, penalty, (min_counts, min_offset) pair and epochs value (domains in "
                 "coverage.input_distribution.enum_domains; the Lean driver enumerates the same domain in the same order and the "
@@ -299,7 +290,7 @@ def replay(ctx, payload):
             want, ties = cc.spec_fixed(counts, e)
             print("statement     :", want, "(exact ties at k:", [k + 1 for k, t in enumerate(ties) if t], ")")
             return got == want
-        return got[0] == 0 and got[-1] == len(counts)
+        return got[0] == 0 and got[-1] == len(counts) and all(a <= b for a, b in zip(got[:-1], got[1:]))
     if d["kind"] == "pelt":
         counts, offs = [h2f(x) for x in d["counts"]], [h2f(x) for x in d["offs"]]
         pen, mc, mo = h2f(d["pen"]), h2f(d["minc"]), h2f(d["mino"])
